@@ -16,7 +16,9 @@ RULE = ('Hypothesis rule-based state machines: state = a pool of 5-10 sentences 
         'order, each identical (trees incl. labels and flags, exact scores) to the memoised result of parsing that '
         'sentence alone under the same configuration; alone results are tied to ground truth (over-length => '
         'placeholder; budget P-1 => failure, P => the unbounded result; chart-infeasible <=> placeholder); malformed '
-        'calls raise before any grammar callback. non-trivial = a batch with >=3 sentences containing a failure among '
+        'calls raise before any grammar callback. Plus a long-history scenario: one call over 600-800 categories whose '
+        'rule-application cache grows past 300k entries (thorough: past 1M), every sentence compared with itself parsed '
+        'alone. non-trivial = a batch with >=3 sentences containing a failure among '
         'successes in an order different from pool order, chunked or after the category table grew; distinct by step digest')
 
 import multiprocessing
@@ -306,8 +308,117 @@ def build_step(data, world, allow_mp):
     return step
 
 
+# ---- long history: one call whose rule-application cache grows to hundreds of thousands of entries
+
+def long_case(seed_, quick):
+    """the batch is sized by cache entries, not sentences: every sentence carries two adjacent 'noisy' tokens, each
+    with a block of 32 inert categories (categories no rule combines) scored between the sentence's good tags and
+    the tags its parse finally needs.  The search builds the good parts first, then asks the grammar about all
+    32 x 32 inert pairs (cached as empty results), then completes the parse: well over 1000 new entries per sentence,
+    and the finished tree uses entries made both before and after them."""
+    import random
+    rng = random.Random(seed_)
+    K0 = rng.randrange(400, 600)
+    nb = 20 if quick else 36
+    spec = {'kind': 'mod', 'K': K0 + 32 * nb + 1, 'K0': K0, 'a': rng.choice([7, 11, 17]), 'b': rng.choice([13, 19, 23]),
+            'c': rng.randrange(K0), 'p': 3, 'q': 5, 'm': 11, 'd': rng.choice([6, 7, 8]), 'u': rng.choice([0, 0, 9]),
+            'head_left': rng.random() < 0.5}
+    return {'mode': 'long', 'seed': seed_, 'grammar': spec, 'blocks': nb, 'N': 30 if quick else 110,
+            'fail_every': rng.choice([7, 11])}
+
+
+LONG_CFG = dict(unary_penalty=0.125, beta=0.00001, use_beta=True, pruning_size=40, nbest=1, max_step=BIG,
+                max_length=250)
+
+
+def long_inputs(case):
+    import random
+    import numpy as np
+    from depccg.types import ScoringResult, Token
+    rng = random.Random(case['seed'] * 7919 + 1)
+    K, K0, nb = case['grammar']['K'], case['grammar']['K0'], case['blocks']
+    docs, scores = [], []
+    for k in range(case['N']):
+        unparseable = k % case['fail_every'] == case['fail_every'] - 1
+        if unparseable:
+            # a one-token sentence whose admitted tags are inert categories: no root among them
+            n, noisy = 1, ()
+        else:
+            n = rng.randint(4, 6)
+            at = rng.randrange(0, n - 1)
+            noisy = (at, at + 1)
+        tag = np.full((n, K), -40.0, dtype=np.float32)
+        pair = k % (nb * nb)
+        for i in range(n):
+            if unparseable:
+                for c in rng.sample(range(K0, K), 8):
+                    tag[i, c] = -rng.randrange(0, 9) / 8
+            elif i in noisy:
+                block = (pair // nb) if i == noisy[0] else (pair % nb)
+                # the best tag of a noisy token is an inert decoy, so the block below it is explored only after the
+                # derivations over the good tokens (which cost less than 1.25) have been built and cached
+                tag[i, K - 1] = 0.0
+                for c in range(K0 + 32 * block, K0 + 32 * block + 32):
+                    tag[i, c] = -(10 + rng.randrange(0, 4)) / 8
+                for c in rng.sample(range(K0), 6):
+                    tag[i, c] = -(24 + rng.randrange(0, 9)) / 8
+            else:
+                for c in rng.sample(range(K0), 6):
+                    tag[i, c] = -rng.randrange(0, 9) / 8
+                tag[i, rng.randrange(K0)] = 0.0
+        dep = np.array([[-rng.randrange(0, 5) / 8 for _ in range(n + 1)] for _ in range(n)], dtype=np.float32)
+        docs.append([Token.of_word(f's{k}w{i}') for i in range(n)])
+        scores.append(ScoringResult(np.ascontiguousarray(tag), np.ascontiguousarray(dep)))
+    return docs, scores
+
+
+@runner.guarded(PROPERTY)
+def check_long(case, info=None):
+    """a batch of N sentences over hundreds of categories parsed in one call (single process, one chunk) against each
+    sentence parsed on its own; every fail_every-th sentence has no parse, so failures sit among successes"""
+    import depccg.parsing
+    fails = []
+    g = gen_gram.make_grammar(case['grammar'])
+    cats = list(g.cats)
+    roots = [c for i, c in enumerate(g.cats) if i % 2 == 0 and i < case['grammar']['K0']]
+    docs, scores = long_inputs(case)
+    cfg = dict(LONG_CFG)
+    rt = native.setup()
+    del rt.unraisable[:]
+    del rt.faults[:]
+    try:
+        res = depccg.parsing.run(docs, scores, cats, roots, g.binary, g.unary, processes=1,
+                                 max_chunk_size=len(docs) + 1, **cfg)
+    except Exception as ex:
+        return [(f'{PROPERTY}/long/raises/{type(ex).__name__}', f'batch of {len(docs)} sentences over '
+                 f'{len(cats)} categories: {type(ex).__name__}: {ex}')]
+    entries = g.calls
+    for f in list(rt.unraisable) + list(rt.faults):
+        fails.append((f'{PROPERTY}/long/fault', f'batch of {len(docs)} sentences: {f}'))
+    if len(res) != len(docs):
+        return fails + [(f'{PROPERTY}/long/result-count', f'{len(docs)} sentences, {len(res)} result lists')]
+    nparsed = 0
+    for k in range(len(docs)):
+        got = [(native.snap(st_.tree), float(st_.score)) for st_ in res[k]]
+        one = depccg.parsing.run([docs[k]], [scores[k]], cats, roots, g.binary, g.unary, processes=1,
+                                 max_chunk_size=20, **cfg)
+        want = [(native.snap(st_.tree), float(st_.score)) for st_ in one[0]]
+        nparsed += not is_ph(got)
+        if got != want:
+            kind = 'placeholder-mismatch' if is_ph(got) != is_ph(want) else 'tree-or-score-differs'
+            fails.append((f'{PROPERTY}/long/history-dependent/{kind}', f'sentence {k} of a batch of {len(docs)} over '
+                          f'{len(cats)} categories gives {_brief(got)}; parsed alone it gives {_brief(want)}'))
+            if len(fails) > 3:
+                break
+    if info is not None:
+        info.update(entries=entries, parsed=nparsed, size=len(docs))
+    return fails
+
+
 def replay(case):
     native.setup()
+    if case.get('mode') == 'long':
+        return check_long(case)
     world = World(case['init'])
     fails = []
     for step in case['steps']:
@@ -317,6 +428,17 @@ def replay(case):
 
 def _shard(ctx, shard, nshards):
     native.setup()
+    if shard >= nshards - ctx.scale(1, 2):
+        case = long_case(ctx.seed * 16 + shard, ctx.quick)
+        info = {}
+        fails = check_long(case, info)
+        ctx.notes[f'long_history_cache_entries_seed{case["seed"]}'] = info.get('entries')
+        ctx.case(['long', case['seed']], info.get('parsed', 0) > 0 and (info.get('entries') or 0) >= 1 << 17,
+                 cls='long-history', sample={'long_history': {k: case[k] for k in ('seed', 'N', 'blocks')},
+                                             'categories': case['grammar']['K'],
+                                             'cache_entries': info.get('entries'), 'parsed': info.get('parsed')})
+        ctx.report_direct(fails, case)
+        return
     mp_budget = [ctx.scale(2, 12)]
     n_machines = ctx.scale(100, 600)
 
@@ -370,7 +492,7 @@ def _shard(ctx, shard, nshards):
 
 def run(ctx):
     native.setup()       # translate + compile once, before the shard processes fork
-    n = ctx.scale(8, 16)
+    n = ctx.scale(8, 16) + ctx.scale(1, 2)      # the last shard(s) run the long-history scenario
     ctx.shards(_shard, n, n)
     return RULE, 'exploration', [
         'OS scheduling of worker processes is not controlled; results are joined in task order by the code under test',
